@@ -59,7 +59,7 @@ fn check(case: &Value, obs: &mut Obs) {
   obs.count("model_text_agrees", (expected == source) as u64);
   let mut max_chunks = 0;
   // two rounds: the second stream of a Cached node is the replay path
-  for round in 0..2 {
+  for round in 0..3 {
     for columns in [true, false] {
       let rec = record(&src, &MapOptions::new(columns));
       let mut n = 0;
